@@ -196,12 +196,20 @@ def real_label(tid, label, result):
 
 def modelled_steps(fr):
     out = []
+    # subscribe() takes the fabric's subscription_lock before it touches the registry: that acquisition is the call's
+    # linearisation point (the `call.subscribe` scheduling point before it changes nothing)
+    locked = any(label == "DLock.acquire" for _n, label, _r, _e, _t in fr.trace)
     for name, label, result, enabled, _now in fr.trace:
         tid = tid_of(name)
         if tid is None:
             continue
         if label == "begin" and tid >= 2:
             continue
+        if locked and tid >= 2:
+            if label == "call.subscribe":
+                continue
+            if label == "DLock.acquire":
+                label = "call.subscribe"
         en = sorted(set(t for t in (tid_of(n) for n in enabled) if t is not None))
         out.append((tid, real_label(tid, label, result), en))
     return out
@@ -346,158 +354,322 @@ class Poison:
             raise RuntimeError("poisoned subscriber")
 
 
-def explore_faults(run, focus, n):
-    """oracle-only stream (the model has no dying delivery thread): one delivery thread is killed by a subscriber
-    that raises, then the fabric is started again / stopped; at most one live thread per kind, stop() returns,
-    nothing survives it"""
-    rng = run.rng
-    for _ in range(n):
-        kind_dead = rng.choice(["fifo", "lifo"])
-        seed = rng.randrange(1 << 30)
-        r2 = random.Random(seed)
-        max_live = {"fifo": 0, "lifo": 0}
-        errors = []
-        with dsched.Installed():
-            sched = dsched.Sched(dsched.random_chooser(r2), max_steps=3000, yield_filter=yield_filter)
-            dsched.Sched.current = sched
-            try:
-                af = mao.ActiveFabric()
-                sched.name_obj(af.fifo_fabric_queue, "fq")
-                sched.name_obj(af.lifo_fabric_queue, "lq")
-                good = collections.deque(maxlen=50)
-                results = {}
+def _settle(sched):
+    """wait until every other thread is finished or blocked"""
+    me = sched.me()
+    sched.yield_point("call.settle", enabled=lambda: all(t is me or t.finished or not sched.is_enabled(t) for t in sched.threads))
 
-                def settle():
-                    """wait until every other thread is finished or blocked"""
-                    me = sched.me()
-                    sched.yield_point("call.settle", enabled=lambda: all(
-                        t is me or t.finished or not sched.is_enabled(t) for t in sched.threads))
 
-                def client():
-                    sched.yield_point("call.setup")
-                    af.subscribe(Poison(), Event(signal="S0"), queue_type=kind_dead)
-                    af.subscribe(good, Event(signal="S1"), queue_type="fifo")
-                    af.start()
-                    sched.yield_point("call.publish")
-                    af.publish(Event(signal="S0", payload=0))
-                    settle()                        # the poisoned delivery thread is dead now
-                    results["dead"] = [t.name for t in sched.threads if t.finished and t.error is not None]
-                    sched.yield_point("call.start")
-                    af.start()                      # what an ActiveObject does when is_alive() is False
-                    results["alive_after_restart"] = af.is_alive()
-                    sched.yield_point("call.publish")
-                    af.publish(Event(signal="S1", payload=1))
-                    settle()
-                    sched.yield_point("call.stop")
-                    af.stop()
-                    results["stopped"] = True
-                    sched.yield_point("call.publish")
-                    af.publish(Event(signal="S1", payload=2))
-                    settle()
-                sched.spawn(client, (), name="K0")
+FAULT_OPC = {"start": 0, "stop": 1, "die fifo": 2, "die lifo": 3, "is_alive": 4}
 
-                def monitor(s, st):
-                    for kd in ("fifo", "lifo"):
-                        nlive = sum(1 for t in s.threads if t.name.startswith(kd + " active fabric") and not t.finished)
-                        max_live[kd] = max(max_live[kd], nlive)
-                sched.monitors.append(monitor)
-                outcome = sched.run()
-                live_end = {kd: sum(1 for t in sched.threads if t.name.startswith(kd + " active fabric") and not t.finished)
-                            for kd in ("fifo", "lifo")}
-                got = [e.payload for e in good]
-                for t in sched.threads:
-                    if t.error is not None and "poisoned subscriber" not in str(t.error):
-                        errors.append("%s: %s: %s" % (t.name, type(t.error).__name__, t.error))
-                cj = {"what": "fabric-fault", "dead": kind_dead, "seed": seed, "schedule": [e[0] for e in sched.trace]}
-            finally:
-                sched.shutdown()
-        run.count("fault stream: %s thread killed" % kind_dead)
-        for kd in ("fifo", "lifo"):
-            if max_live[kd] > 1:
-                run.violate("C13/more-than-one-%s-thread" % kd, "after the %s delivery thread died and start() was called again, %d %s threads "
-                            "were alive at the same time" % (kind_dead, max_live[kd], kd), cj)
-        if errors:
-            run.violate("C13/thread-error", "a thread died: %s" % errors[:2], cj)
-        if not results.get("stopped"):
-            run.violate("C13/call-never-returns", "stop() did not return after a delivery thread had died and the fabric was restarted", cj)
+
+def gen_fault_ops(rng):
+    """a call sequence in which a delivery thread is only killed while it is alive (so no poisoned item is left queued)"""
+    ops, alive = [], {"fifo": False, "lifo": False}
+    for _ in range(rng.randint(3, 9)):
+        r = rng.random()
+        killable = [k for k in ("fifo", "lifo") if alive[k]]
+        if r < 0.3 or not ops:
+            ops.append("start"); alive = {"fifo": True, "lifo": True}
+        elif r < 0.6 and killable:
+            k = rng.choice(killable); ops.append("die " + k); alive[k] = False
+        elif r < 0.75:
+            ops.append("stop"); alive = {"fifo": False, "lifo": False}
         else:
-            if live_end["fifo"] or live_end["lifo"]:
-                run.violate("C13/thread-survives-stop", "delivery threads still alive after stop(): %s" % live_end, cj)
-            if results.get("alive_after_restart") is not True:
-                run.violate("C13/is_alive-after-restart", "is_alive() is %r after start() repaired the dead thread" % results.get("alive_after_restart"), cj)
-            if got != [1]:
-                run.violate("C13/delivery-after-restart", "subscriber received %s: expected the publication made while running (1) and not the "
-                            "one made after stop() (2)" % got, cj)
+            ops.append("is_alive")
+    if "die fifo" not in ops and "die lifo" not in ops:
+        ops += ["start", "die " + rng.choice(["fifo", "lifo"]), "start"]
+    ops += ["is_alive", "stop", "is_alive"]
+    return ops
+
+
+def run_fault(ops, chooser):
+    res = {"errors": [], "max_live": {"fifo": 0, "lifo": 0}, "results": [], "done": 0, "good": []}
+    with dsched.Installed():
+        sched = dsched.Sched(chooser, max_steps=4000, yield_filter=yield_filter)
+        dsched.Sched.current = sched
+        try:
+            af = mao.ActiveFabric()
+            sched.name_obj(af.fifo_fabric_queue, "fq")
+            sched.name_obj(af.lifo_fabric_queue, "lq")
+            good = collections.deque(maxlen=200)
+            af.subscribe(good, Event(signal="GOOD"), queue_type="fifo")
+            expected_good = []
+
+            def client():
+                nsig = 0
+                for op in ops:
+                    sched.yield_point("call." + op.split()[0])
+                    if op == "start":
+                        af.start()
+                    elif op == "stop":
+                        af.stop()
+                    elif op == "is_alive":
+                        res["results"].append(bool(af.is_alive()))
+                    else:
+                        nsig += 1
+                        af.subscribe(Poison(), Event(signal="P%d" % nsig), queue_type=op.split()[1])
+                        af.publish(Event(signal="P%d" % nsig, payload=0))
+                        _settle(sched)
+                    if op != "stop":
+                        # a publication made now must arrive iff the fifo thread is alive
+                        fifo_alive = any(t.name.startswith("fifo active fabric") and not t.finished for t in sched.threads)
+                        if fifo_alive and op != "is_alive":
+                            af.publish(Event(signal="GOOD", payload=res["done"]))
+                            expected_good.append(res["done"])
+                            _settle(sched)
+                    res["done"] += 1
+            sched.spawn(client, (), name="K0")
+
+            def monitor(s_, st):
+                for kd in ("fifo", "lifo"):
+                    nlive = sum(1 for t in s_.threads if t.name.startswith(kd + " active fabric") and not t.finished)
+                    res["max_live"][kd] = max(res["max_live"][kd], nlive)
+            sched.monitors.append(monitor)
+            res["outcome"] = sched.run()
+            res["live"] = {kd: sum(1 for t in sched.threads if t.name.startswith(kd + " active fabric") and not t.finished)
+                           for kd in ("fifo", "lifo")}
+            res["handles"] = [int(h is not None and h._st is not None and not h._st.finished) for h in (af.fifo_thread, af.lifo_thread)]
+            res["flag"] = int(af.fabric_task_event._flag)
+            res["good"] = [e.payload for e in good]
+            res["expected_good"] = expected_good
+            for t in sched.threads:
+                if t.error is not None and "poisoned subscriber" not in str(t.error):
+                    res["errors"].append("%s: %s: %s" % (t.name, type(t.error).__name__, t.error))
+            res["schedule"] = [e[0] for e in sched.trace]
+        finally:
+            sched.shutdown()
+    return res
+
+
+def explore_faults(run, focus, n):
+    """fault stream: delivery threads are killed by a subscriber that raises; random sequences of start / stop / is_alive /
+    kill; tied to the Lean call-level model `Conc.FabFault` (family `fabfault`) and checked by implementation-side oracles"""
+    rng = run.rng
+    done = []
+    for _ in range(n):
+        ops = gen_fault_ops(rng)
+        seed = rng.randrange(1 << 30)
+        res = run_fault(ops, dsched.random_chooser(random.Random(seed)))
+        cj = {"what": "fabric-fault", "ops": ops, "seed": seed, "schedule": res.get("schedule", [])}
+        run.count("fault stream: %d kills" % sum(1 for o in ops if o.startswith("die")))
+        for kd in ("fifo", "lifo"):
+            if res["max_live"][kd] > 1:
+                run.violate("C13/more-than-one-%s-thread" % kd, "call sequence %s: %d %s delivery threads were alive at the same time"
+                            % (ops, res["max_live"][kd], kd), cj)
+        if res["errors"]:
+            run.violate("C13/thread-error", "a thread died: %s" % res["errors"][:2], cj)
+        if res["done"] < len(ops):
+            run.violate("C13/call-never-returns", "call %d (%s) of %s did not return" % (res["done"], ops[res["done"]], ops), cj)
+        else:
+            if res["live"]["fifo"] or res["live"]["lifo"]:
+                run.violate("C13/thread-survives-stop", "delivery threads still alive after the final stop(): %s" % res["live"], cj)
+            if res["good"] != res["expected_good"]:
+                run.violate("C13/delivery-after-restart", "subscriber received %s, expected %s (one publication after each call that left "
+                            "the fifo thread alive)" % (res["good"], res["expected_good"]), cj)
         run.case(cj, nontrivial=True)
+        done.append((ops, res, cj))
+    lines = ["fabfault 9 %d %s" % (len(ops), " ".join(str(FAULT_OPC[o]) for o in ops)) for ops, _, _ in done]
+    outs = leanrun.run_driver(lines)
+    for (ops, res, cj), out in zip(done, outs):
+        run.traces_validated += 1
+        if res["done"] < len(ops):
+            continue
+        real = "live=F%dL%d handles=%d%d flag=%d stuck=0 results=%s" % (
+            res["live"]["fifo"], res["live"]["lifo"], res["handles"][0], res["handles"][1], res["flag"],
+            "".join(str(int(x)) for x in res["results"]))
+        if out.strip() != real:
+            run.disagree("fabric start/stop/is_alive with dying delivery threads (call level)", cj, "model: %s\nreal:  %s" % (out.strip(), real), None)
+
+
+def gen_fine_spec(rng):
+    nq = rng.randint(2, 4)
+    return {"nq": nq, "kind": rng.choice(["fifo", "lifo"]), "npub": rng.randint(1, 3),
+            # queue nq is a NEW queue (a first-time subscribe landing in a delivery loop)
+            "resub": [rng.randrange(nq + 1) if rng.random() < 0.3 else rng.randrange(nq) for _ in range(rng.randint(1, 4))]}
+
+
+def run_fine(spec, chooser):
+    nq, kind = spec["nq"], spec["kind"]
+    res = {"errors": []}
+    with dsched.Installed():
+        sched = dsched.Sched(chooser, max_steps=3000, yield_filter=lambda l: yield_filter(l) or l.startswith("sq"))
+        dsched.Sched.current = sched
+        try:
+            if hasattr(mao.FabricEvent, "sequence"):
+                import itertools
+                mao.FabricEvent.sequence = itertools.count()
+            af = mao.ActiveFabric()
+            sched.name_obj(af.fifo_fabric_queue, "fq")
+            sched.name_obj(af.lifo_fabric_queue, "lq")
+            qs = []
+            for i in range(nq + 1):
+                q = dsched.DDeque(maxlen=50)
+                sched.name_obj(q, "sq%d" % i)
+                qs.append(q)
+
+            def setup_and_publish():
+                sched.yield_point("call.setup")
+                for q in qs[:nq]:
+                    af.subscribe(q, Event(signal="S0"), queue_type=kind)
+                af.start()
+                for k in range(spec["npub"]):
+                    sched.yield_point("call.publish")
+                    af.publish(Event(signal="S0", payload=k))
+
+            def resubscriber():
+                for qi in spec["resub"]:
+                    sched.yield_point("call.subscribe")
+                    af.subscribe(qs[qi], Event(signal="S0"), queue_type=kind)
+            sched.spawn(setup_and_publish, (), name="K0")
+            sched.spawn(resubscriber, (), name="K1")
+            res["outcome"] = sched.run()
+            res["got"] = [[e.payload for e in q.raw()] for q in qs]
+            reg = (af.fifo_subscriptions if kind == "fifo" else af.lifo_subscriptions).get("S0", [])
+            reg = list(reg.values()) if isinstance(reg, dict) else list(reg)
+            res["reg"] = [next(i for i, q in enumerate(qs) if q is x) for x in reg]
+            for t in sched.threads:
+                if t.error is not None:
+                    res["errors"].append("%s: %s: %s" % (t.name, type(t.error).__name__, t.error))
+            res["trace"] = [(e[0], e[1]) for e in sched.trace]
+        finally:
+            sched.shutdown()
+    # the schedule as steps of the Lean model: 0 q = subscribe, 1 = publish, 2 = one delivery-thread primitive
+    pre = "fq" if kind == "fifo" else "lq"
+    steps, k1 = [], 0
+    locked = any(label == "DLock.acquire" for _n, label in res["trace"])
+    k0_subs = 0
+    for name, label in res["trace"]:
+        if name == "K0" and label == "DLock.acquire" and k0_subs < nq:
+            steps.append((0, k0_subs)); k0_subs += 1
+        elif name == "K0" and label == "call.setup" and not locked:
+            steps += [(0, q) for q in range(nq)]
+        elif name == "K1" and label == ("DLock.acquire" if locked else "call.subscribe"):
+            steps.append((0, spec["resub"][k1])); k1 += 1
+        elif name == "K0" and label == pre + ".put":
+            steps.append((1,))
+        elif name.startswith(kind + " active fabric") and (label in (pre + ".get", pre + ".task_done") or label.startswith("sq")):
+            steps.append((2,))
+    res["steps"] = steps
+    return res
 
 
 def explore_fine(run, focus, n):
-    """oracle-only stream: subscriber queues are yield points, so a client call can land in the middle of a delivery
-    loop (the model delivers atomically); redundant subscribes race a publication"""
+    """fine-grained stream: subscriber deques are scheduling points, so a subscribe can land in the middle of a delivery loop;
+    tied to the Lean model `Conc.FabFine` (family `fabfine`, one step per q.append) and checked by a delivery-count oracle"""
     rng = run.rng
+    done = []
     for _ in range(n):
+        spec = gen_fine_spec(rng)
         seed = rng.randrange(1 << 30)
         r2 = random.Random(seed)
-        nq = rng.randint(2, 4)
-        kind = rng.choice(["fifo", "lifo"])
-        errors = []
-        with dsched.Installed():
-            sched = dsched.Sched(dsched.pct_chooser(r2, depth=r2.randint(1, 3), est_len=60) if r2.random() < 0.5 else dsched.random_chooser(r2),
-                                 max_steps=3000,
-                                 yield_filter=lambda l: yield_filter(l) or l.startswith("sq"))
-            dsched.Sched.current = sched
-            try:
-                af = mao.ActiveFabric()
-                sched.name_obj(af.fifo_fabric_queue, "fq")
-                sched.name_obj(af.lifo_fabric_queue, "lq")
-                qs = []
-                for i in range(nq):
-                    q = dsched.DDeque(maxlen=50)
-                    sched.name_obj(q, "sq%d" % i)
-                    qs.append(q)
-                npub = rng.randint(1, 3)
+        chooser = dsched.pct_chooser(r2, depth=r2.randint(1, 3), est_len=60) if r2.random() < 0.5 else dsched.random_chooser(r2)
+        res = run_fine(spec, chooser)
+        cj = {"what": "fabric-fine", "spec": spec, "seed": seed, "schedule": [nm for nm, _ in res.get("trace", [])]}
+        run.count("fine-grained delivery stream (%s)" % ("with a first-time subscribe" if spec["nq"] in spec["resub"] else "redundant subscribes only"))
+        if res["errors"]:
+            run.violate("%s/thread-error" % focus, "a thread died: %s" % res["errors"][:2], cj)
+        want = list(range(spec["npub"]))
+        for i, g in enumerate(res.get("got", [])[:spec["nq"]]):
+            if g != want:
+                run.violate("C06/delivery-count", "subscribing while a publication is being delivered: queue %d received %s, expected "
+                            "%s (each publication exactly once, in order)" % (i, g, want), cj)
+        extra = res.get("got", [[]] * (spec["nq"] + 1))[spec["nq"]]
+        if any(extra.count(u) > 1 for u in extra) or extra != sorted(extra):
+            run.violate("C06/delivery-count", "the queue that subscribed during the deliveries received %s" % extra, cj)
+        run.case(cj, nontrivial=True)
+        done.append((spec, res, cj))
+    lines = []
+    for spec, res, cj in done:
+        toks = []
+        for st in res["steps"]:
+            toks += [str(x) for x in st]
+        lines.append("fabfine 9 %d %s" % (len(res["steps"]), " ".join(toks)))
+    outs = leanrun.run_driver(lines)
+    for (spec, res, cj), out in zip(done, outs):
+        run.traces_validated += 1
+        if res.get("outcome") != "quiescent" or res["errors"]:
+            continue
+        items = ";".join("%d:%s" % (i, ",".join(str(u) for u in g)) for i, g in enumerate(res["got"]) if g)
+        real = "reg=%s fq= d=idle items=%s blocked=0" % (",".join(str(i) for i in res["reg"]), items)
+        if out.strip() != real:
+            run.disagree("subscribe racing a delivery loop (one step per q.append)", cj, "model: %s\nreal:  %s" % (out.strip(), real), None)
 
-                def setup_and_publish():
-                    sched.yield_point("call.setup")
-                    for q in qs:
-                        af.subscribe(q, Event(signal="S0"), queue_type=kind)
-                    af.start()
-                    for k in range(npub):
-                        sched.yield_point("call.publish")
-                        af.publish(Event(signal="S0", payload=k))
 
-                def resubscriber():
-                    for _ in range(rng.randint(1, 4)):
-                        sched.yield_point("call.subscribe")
-                        af.subscribe(qs[r2.randrange(nq)], Event(signal="S0"), queue_type=kind)
-                sched.spawn(setup_and_publish, (), name="K0")
-                sched.spawn(resubscriber, (), name="K1")
-                sched.run()
-                got = [[e.payload for e in q.raw()] for q in qs]
-                for t in sched.threads:
-                    if t.error is not None:
-                        errors.append("%s: %s: %s" % (t.name, type(t.error).__name__, t.error))
-                cj = {"what": "fabric-fine", "queues": nq, "kind": kind, "seed": seed, "schedule": [e[0] for e in sched.trace]}
-            finally:
-                sched.shutdown()
-        run.count("fine-grained delivery stream")
+def subscribe_race_run(spec, chooser):
+    """two client threads subscribe different queues at the same time, every bytecode of subscribe / _subscribe a scheduling point"""
+    import small_corr, types
+    with dsched.Installed():         # the fabric's own lock becomes a scheduler-aware lock
+        return _subscribe_race_run(spec, chooser, small_corr, types)
+
+
+def _subscribe_race_run(spec, chooser, small_corr, types):
+    af = mao.ActiveFabricSource()
+    kind = spec["kind"]
+    qs = [collections.deque(maxlen=20) for _ in range(1 + sum(len(p) for p in spec["progs"]))]
+    for i in range(spec["pre"]):
+        af.subscribe(qs[0], Event(signal="S%d" % i), queue_type=kind)
+    codes = [mao.ActiveFabricSource.subscribe.__code__] + [c for c in mao.ActiveFabricSource.subscribe.__code__.co_consts
+                                                             if isinstance(c, types.CodeType)]
+    nxt = [1]
+    assign = []
+    fns = []
+    for p in spec["progs"]:
+        mine = []
+        for sg in p:
+            mine.append((nxt[0], sg))
+            nxt[0] += 1
+        assign.append(mine)
+
+        def f(mine=mine):
+            for qi, sg in mine:
+                af.subscribe(qs[qi], Event(signal="S%d" % sg), queue_type=kind)
+        fns.append(f)
+    order, errors, outcome, fin = small_corr.run_threads(fns, chooser, codes)
+    reg = af.fifo_subscriptions if kind == "fifo" else af.lifo_subscriptions
+    got = {k: [next(i for i, q in enumerate(qs) if q is x) for x in (v.values() if isinstance(v, dict) else v)] for k, v in reg.items()}
+    return order, errors, got, assign
+
+
+def explore_subscribe_race(run, n):
+    """oracle-only (the Lean models take one subscribe call as one step): first-time subscribes of different queues from two
+    threads, interleaved bytecode by bytecode; every subscribe that returned must be in the registry, exactly once"""
+    rng = run.rng
+    for _ in range(n):
+        spec = {"kind": rng.choice(["fifo", "lifo"]), "pre": rng.randint(0, 2),
+                "progs": [[rng.randrange(2) for _ in range(rng.randint(1, 2))] for _ in range(2)]}
+        seed = rng.randrange(1 << 30)
+        r2 = random.Random(seed)
+        chooser = dsched.pct_chooser(r2, depth=r2.randint(1, 3), est_len=200) if r2.random() < 0.5 else dsched.random_chooser(r2)
+        order, errors, got, assign = subscribe_race_run(spec, chooser)
+        cj = {"what": "subscribe-race", "spec": spec, "seed": seed, "schedule": order}
+        run.count("subscribe race (bytecode level)")
+        run.traces_validated += 1
         if errors:
-            run.violate("C06/thread-error", "a thread died: %s" % errors[:2], cj)
-        # K1 may subscribe before K0 has: then that queue is subscribed before the others, nothing else changes;
-        # every queue ends up subscribed before the first publication only if K0's setup ran first — so only
-        # count-exactness per queue is checked for publications made after all queues were subscribed by K0
-        want = sorted(range(npub))
-        for i, g in enumerate(got):
-            if sorted(g) != want:
-                run.violate("C06/delivery-count", "re-subscribing while a publication is being delivered: queue %d received %s, "
-                            "expected each of %s exactly once" % (i, g, want), cj)
+            run.violate("C06/thread-error", "concurrent subscribes failed: %s" % errors[:2], cj)
+        for mine in assign:
+            for qi, sg in mine:
+                lst = got.get("S%d" % sg, [])
+                if lst.count(qi) != 1:
+                    run.violate("C06/concurrent-subscribe-lost", "two threads subscribing different queues at the same time: queue %d "
+                                "subscribed to S%d (the call returned) but the registry for S%d is %s" % (qi, sg, sg, lst), cj)
         run.case(cj, nontrivial=True)
 
 
 def replay(case):
     cc = case.get("case", case)
-    if cc.get("what") in ("fabric-fault", "fabric-fine"):
-        print("re-run with the same VERIF_SEED: these streams are seeded by", cc.get("seed"), cc)
+    if cc.get("what") == "subscribe-race":
+        import small_corr
+        sched_list = list(cc["schedule"])
+        print(subscribe_race_run(cc["spec"], dsched.scripted_chooser(["T%d" % i for i in sched_list], then=dsched.round_robin_chooser())))
+        return 0
+    if cc.get("what") == "fabric-fault":
+        res = run_fault(cc["ops"], dsched.scripted_chooser(cc["schedule"], then=dsched.round_robin_chooser()))
+        print({k: v for k, v in res.items() if k != "schedule"})
+        return 0
+    if cc.get("what") == "fabric-fine":
+        res = run_fine(cc["spec"], dsched.scripted_chooser(cc["schedule"], then=dsched.round_robin_chooser()))
+        print({k: v for k, v in res.items() if k != "trace"})
         return 0
     sc = FabScenario.from_json(cc["scenario"])
     fr = run_real(sc, dsched.scripted_chooser(cc["schedule"], then=dsched.round_robin_chooser()))
